@@ -370,8 +370,32 @@ pub fn all_programs(thorough: bool) -> Vec<(String, Program)> {
     all_programs_len(if thorough { 4 } else { 3 })
 }
 
+/// string literals: every content of length <= 2 over an alphabet with escapes-to-be, control
+/// characters, digits and non-ASCII; printed, compared, concatenated and stored in composites
+pub fn string_programs(out: &mut Vec<(String, Program)>) {
+    let alphabet = ["a", "\\", "n", "0", "7", "'", "%", " ", "\t", "\n", "\r", "\u{1b}", "\u{7f}", "é", "[", "]"];
+    let mut contents: Vec<String> = vec![String::new()];
+    for a in alphabet {
+        contents.push(a.to_string());
+        for b in alphabet {
+            contents.push(format!("{}{}", a, b));
+        }
+    }
+    for chunk in contents.chunks(6) {
+        let mut body = Vec::new();
+        for c in chunk {
+            body.push(print_of(add(add(s("<"), s(c)), s(">"))));
+            body.push(def("x", s(c)));
+            body.push(print_of(bin(BinOp::Eq, var("x"), s(c))));
+            body.push(print_of(Expr::Tuple(vec![var("x"), int(1)])));
+        }
+        out.push(("strings".to_string(), Program { tops: vec![ext_print(), start_fn(body)] }));
+    }
+}
+
 pub fn all_programs_len(max_len: usize) -> Vec<(String, Program)> {
     let mut out = Vec::new();
+    string_programs(&mut out);
     let mut fams = loops_family(false);
     fams.push(closures_family(false));
     fams.push(blobs_family(false));
